@@ -47,6 +47,8 @@ class Scratch(Report):
 
     def fail(self, rule, site, where, expected, found, function=None):
         self.fired.setdefault(rule, []).append(site)
+        self.details = getattr(self, 'details', [])
+        self.details.append((rule, site, where, found))
 
 
 def controls_c18(rep):
